@@ -283,8 +283,10 @@ def run_key(c) -> tuple:
     tag = ref["kty"] + (":" + ref["crv"] if "crv" in ref else "")
     if not secrets:
         return f, kinds
-    k = jkey(ref, c["form"], True, _params(c["params"]))
-    kpub = None if ref["kty"] == "oct" else jkey(rk.public_of(ref), c["form"], False, _params(c["params"]))
+    # the two halves of the key pair are imported with ONE parameters dict object, as an application holding a common {"use", "alg"} would
+    shared = _params(c["params"])
+    k = jkey(ref, c["form"], True, shared)
+    kpub = None if ref["kty"] == "oct" else jkey(rk.public_of(ref), c["form"], False, shared)
     outputs = []
 
     def add(kind, thunk):
@@ -305,6 +307,19 @@ def run_key(c) -> tuple:
         add("pem-public", lambda: k.as_pem(private=False, password="pw"))
         add("public-key-default-export", lambda: kpub.as_pem())
         add("public-key-default-export", lambda: kpub.as_dict())
+        add("public-key-default-export", lambda: KeySet([kpub]).as_dict())
+        if ref["kty"] == "RSA":
+            # an RSA JWK that names its prime factors but not d: refused, or else a public key without them in any export
+            try:
+                from joserfc.jwk import RSAKey
+                full = rk.export_jwk(ref, True)
+                kd = RSAKey.import_key({m: v for m, v in full.items() if m != "d"})
+            except Exception:
+                kd = None
+            if kd is not None:
+                add("public-key-default-export", lambda: kd.as_dict())
+                add("keyset-public", lambda: KeySet([kd]).as_dict(private=False))
+                add("public-key-default-export", lambda: KeySet([kd]).as_dict())
         if c["form"] in ("pem", "der"):
             # a public-only key object that was handed private-flagged members as extra parameters: a public export still has none
             full = rk.export_jwk(ref, True)
